@@ -186,12 +186,11 @@ func (i *insertExecutor) buildAfterImageSQL(ctx context.Context) (string, []driv
 	// build check sql
 	sb := strings.Builder{}
 	suffix := strings.Builder{}
-	var insertColumns []string
-
-	for _, column := range i.parserCtx.InsertStmt.Columns {
-		insertColumns = append(insertColumns, column.Name.O)
-	}
-	sb.WriteString("SELECT " + strings.Join(i.getNeedColumns(meta, insertColumns, types.DBTypeMySQL), ", "))
+	// an INSERT writes every column of its rows, the listed ones and the ones that take
+	// their default: the image holds them all, whether or not only the updated columns
+	// of an UPDATE are tracked (rollback removes the whole row, so a later change of
+	// any column must be noticed)
+	sb.WriteString("SELECT " + strings.Join(i.getNeedColumns(meta, nil, types.DBTypeMySQL), ", "))
 	suffix.WriteString(" FROM " + tableName)
 	whereSQL := i.buildWhereConditionByPKs(pkColumnNameList, rowSize, "mysql", maxInSize)
 	suffix.WriteString(" WHERE " + whereSQL + " ")
